@@ -335,7 +335,7 @@ func ruleG7d(c *Ctx) *RuleResult {
 
 func ruleV4g(c *Ctx) *RuleResult {
 	r := &RuleResult{Floor: 1, FloorWhat: "calls of handlers looked up in the path table"}
-	get := c.Method("", "muxerServer", "getPathHandler")
+	get := c.pathTableFn("lookup")
 	if get == nil {
 		r.undecided("muxerServer.getPathHandler not found")
 		return r
